@@ -10,6 +10,7 @@ import (
 	"sort"
 
 	"git.metabarcoding.org/obitools/obitools4/obitools4/pkg/obialign"
+	"git.metabarcoding.org/obitools/obitools4/obitools4/pkg/obikmer"
 	"git.metabarcoding.org/obitools/obitools4/obitools4/pkg/obiseq"
 	"git.metabarcoding.org/obitools/obitools4/obitools4/pkg/obitools/obipairing"
 )
@@ -29,6 +30,37 @@ type c08case struct {
 	Mat   bool    `json:"mat"`   // export the score matrix
 	Fills bool    `json:"fills"` // also run the two fills + backtracking alone (fresh matrices)
 	Fresh bool    `json:"fresh"` // use a fresh arena for this case (to compare with the reused one)
+	Kind  string  `json:"kind"`  // "" (a read pair) | "tables" (dump of the tables behind the model, see c08tables.go)
+	Cmp   bool    `json:"cmp"`   // run the pair a second time with a FRESH arena and a FRESH shift map (observation "fresh")
+}
+
+// what must not depend on the history of the arena / shift map
+type c08fresh struct {
+	Kind      string  `json:"kind"`
+	Err       string  `json:"err,omitempty"`
+	IsLeft    bool    `json:"isleft"`
+	Score     int     `json:"score"`
+	Path      []int   `json:"path"`
+	FastCount int     `json:"fastcount"`
+	Over      int     `json:"over"`
+	FastScore float64 `json:"fastscore"`
+	Asm       *c08asm `json:"asm,omitempty"`
+}
+
+// the 4-mer vote called directly (obikmer.Index4mer + FastShiftFourMer)
+type c08vote struct {
+	Kind  string  `json:"kind"`
+	Err   string  `json:"err,omitempty"`
+	Shift int     `json:"shift"`
+	Count int     `json:"count"`
+	Score float64 `json:"score"`
+	// the same call on the SHARED shift map (as left by the pairs processed before)
+	SShift int     `json:"sshift"`
+	SCount int     `json:"scount"`
+	SScore float64 `json:"sscore"`
+	SLeft  int     `json:"sleft"` // entries left in the shared map after the call (must be 0)
+	KA     []int   `json:"ka"`    // Encode4mer(A), Encode4mer(B)
+	KB     []int   `json:"kb"`
 }
 
 type c08asm struct {
@@ -57,6 +89,8 @@ type c08obs struct {
 	ScoreR    int     `json:"scoreR"`
 	PathR     []int   `json:"pathR,omitempty"`
 	Asm       *c08asm `json:"asm,omitempty"`
+	Fresh     *c08fresh `json:"fresh,omitempty"`
+	Vote      *c08vote  `json:"vote,omitempty"`
 }
 
 var c08arena obialign.PEAlignArena
@@ -131,7 +165,30 @@ func c08assemble(c c08case, arena obialign.PEAlignArena, shifts *map[int]int) (a
 	return a
 }
 
+func c08vote_(c c08case) (v *c08vote) {
+	v = &c08vote{Kind: "ok"}
+	defer func() {
+		if r := recover(); r != nil {
+			v.Kind = "panic"
+			v.Err = fmt.Sprint(r)
+			c08arenaOK = false
+		}
+	}()
+	sa, sb := c08mk("A", c.A, c.QA), c08mk("B", c.B, c.QB)
+	v.KA = c08ints(obikmer.Encode4mer(sa, nil))
+	v.KB = c08ints(obikmer.Encode4mer(sb, nil))
+	index := obikmer.Index4mer(sa, nil, nil)
+	m := make(map[int]int)
+	v.Shift, v.Count, v.Score = obikmer.FastShiftFourMer(index, &m, sa.Len(), sb, c.Rel, nil)
+	v.SShift, v.SCount, v.SScore = obikmer.FastShiftFourMer(index, &c08shifts, sa.Len(), sb, c.Rel, nil)
+	v.SLeft = len(c08shifts)
+	return v
+}
+
 func c08run(c c08case) any {
+	if c.Kind == "tables" {
+		return c08tables()
+	}
 	o := &c08obs{}
 	if len(c.A) != len(c.QA) || len(c.B) != len(c.QB) {
 		o.Kind = "badcase"
@@ -180,6 +237,28 @@ func c08run(c c08case) any {
 			}
 		}
 		o.Asm = c08assemble(c, arena, shifts)
+	}
+	if c.Cmp && la > 0 && lb > 0 {
+		fa := obialign.MakePEAlignArena(la, lb)
+		fm := make(map[int]int)
+		fo := &c08obs{}
+		c08align(c, fo, fa, &fm)
+		f := &c08fresh{Kind: fo.Kind, Err: fo.Err, IsLeft: fo.IsLeft, Score: fo.Score, Path: fo.Path,
+			FastCount: fo.FastCount, Over: fo.Over, FastScore: fo.FastScore}
+		if fo.Kind == "ok" {
+			fa2 := obialign.MakePEAlignArena(la, lb)
+			fm2 := make(map[int]int)
+			f.Asm = c08assemble(c, fa2, &fm2)
+		}
+		o.Fresh = f
+		if c.Fast {
+			if !c08arenaOK {
+				c08arena = obialign.MakePEAlignArena(150, 150)
+				c08shifts = make(map[int]int)
+				c08arenaOK = true
+			}
+			o.Vote = c08vote_(c)
+		}
 	}
 	return o
 }
